@@ -69,9 +69,10 @@ def frame_problems(pos_before, pos_after, result, tol=TOL):
 
 def install_frame_contract(ctx, record=None):
     def make(real):
-        def calcule_base(pos):
+        def calcule_base(*args, **kwargs):
+            pos, = bus.seen(('pos',), args, kwargs)
             before = [np.array(p, float, copy=True) for p in pos]
-            result = real(pos)
+            result = real(*args, **kwargs)
             try:
                 if all(np.all(np.isfinite(b)) for b in before) and np.any(before[2] - before[0]):
                     cls, problems = frame_problems(before, pos, result)
@@ -117,9 +118,10 @@ def rotation_problems(axis, theta, R, tol=TOL):
 
 def install_rotation_contract(ctx):
     def make(real):
-        def rotation_matrix(axis, theta):
+        def rotation_matrix(*args, **kwargs):
+            axis, theta = bus.seen(('axis', 'theta'), args, kwargs)
             before = np.array(axis, float, copy=True)
-            R = real(axis, theta)
+            R = real(*args, **kwargs)
             try:
                 if np.all(np.isfinite(before)) and np.linalg.norm(before) > 0 and np.isfinite(theta):
                     ctx.monitor('rotation_contract')
@@ -202,9 +204,10 @@ def install_move_contract(ctx, on_call=None):
     state = {'displ': None}
 
     def make_displ(real):
-        def find_atom_random_displ(atoms_pos, bonds_info, atom_index, sigma_scale=0.5):
+        def find_atom_random_displ(*args, **kwargs):
+            atoms_pos, bonds_info, atom_index = bus.seen(('atoms_pos', 'bonds_info', 'atom_index'), args, kwargs)
             before = np.array(atoms_pos, float, copy=True)
-            d = real(atoms_pos, bonds_info, atom_index, sigma_scale=sigma_scale)
+            d = real(*args, **kwargs)
             try:
                 ctx.monitor('displ_contract')
                 for mech, msg in displ_problems(before, bonds_info, atom_index, d):
@@ -218,11 +221,11 @@ def install_move_contract(ctx, on_call=None):
         return find_atom_random_displ
 
     def make_move(real):
-        def move_mol_atom(atoms_pos, bonds_info, atom_index=None, displ=None, sigma_scale=0.5):
+        def move_mol_atom(*args, **kwargs):
+            atoms_pos, bonds_info, atom_index, displ = bus.seen(('atoms_pos', 'bonds_info', 'atom_index', 'displ'), args, kwargs)
             before = np.array(atoms_pos, float, copy=True)
             state['displ'] = None
-            out = real(atoms_pos, bonds_info, atom_index=atom_index, displ=displ,
-                       sigma_scale=sigma_scale)
+            out = real(*args, **kwargs)
             try:
                 used_index, used_displ = atom_index, displ
                 if used_displ is None and state['displ'] is not None:
